@@ -35,13 +35,14 @@ CONSTANTS
     NoRedSet,       \* subset of BOOLEAN: per-spec no_redact
     NoObfSets,      \* set of per-spec no_obfuscate sets
     WidthSet,       \* subset of BOOLEAN: per-spec fixed-width mode (the netstat spec)
+    AllowSet,       \* subset of Nat: 0 = no allow list, n > 0 = allow list {key 1 : max_match n} (filterable spec)
     FamSet,         \* concretisation families, subset of AllFam
     AllowBlank,     \* BOOLEAN: blank lines in the content
     Runs,           \* fresh-cleaner runs of the same case
     AllOrders,      \* BOOLEAN: ChooseOrder ranges over every permutation (else one representative)
     FreeOrder       \* BOOLEAN: every run picks its own order (demonstration config only)
 
-AllKinds == {"text", "ip", "loop", "short", "fqdn", "dom", "mac", "nullmac", "kw", "pat", "pw"}
+AllKinds == {"text", "ip", "loop", "short", "fqdn", "dom", "mac", "nullmac", "kw", "pat", "pw", "akey"}
 (* delimiter classes: line start / end, white space, punctuation (never    *)
 (* ':' '-' '.' '_'), ':' , '-', a dot with digits ('.443' on the right,      *)
 (* '7.' on the left), a letter or '_', a digit (for a MAC: a hex digit)     *)
@@ -83,7 +84,7 @@ IdsOf(k) == CASE k = "ip"  -> 1..NIp
               [] OTHER     -> {0}
 TokSet  == UNION {{[k |-> k, id |-> i, l |-> l, r |-> r] : i \in IdsOf(k), l \in DelSet, r \in DelSet} : k \in Kinds}
 LineSet == UNION {[1..n -> TokSet] : n \in (IF AllowBlank THEN 0 ELSE 1)..MaxTok}
-SpSet   == [nored : NoRedSet, noobf : NoObfSets, width : WidthSet]
+SpSet   == [nored : NoRedSet, noobf : NoObfSets, width : WidthSet, allow : AllowSet]
 Cfgs    == {c \in [obf : ObfSet, host : HostSet, mac : MacSet, kws : KwSets, pats : PatSets,
                    regex : RegexSet, sysdom : SysDomSet, fam : FamSet] :
                 /\ (c.pats = {} => ~c.regex \/ RegexSet = {TRUE})
@@ -115,9 +116,13 @@ MustHide(t, c, sp) ==
       [] t.k \in {"short", "fqdn"} -> c.obf /\ c.host /\ ~Exempt("hostname", sp)
       [] t.k = "dom" -> c.obf /\ c.host /\ c.sysdom /\ ~Exempt("hostname", sp)
       [] t.k = "mac" -> c.obf /\ c.mac /\ ~Exempt("mac", sp) /\ MacDelimited(t)
-      [] OTHER       -> FALSE        \* text, loopback, all-zero / broadcast MAC, pattern text
+      [] OTHER       -> FALSE        \* text, loopback, all-zero / broadcast MAC, pattern text, allow-list key
 MustDrop(line, c, sp) ==
     ~sp.nored /\ \E i \in DOMAIN line : line[i].k = "pat" /\ line[i].id \in c.pats
+(* allow-list filtering (cleaner/filters.py): a non-blank line passes only  *)
+(* while it contains a key whose max_match budget is not used up            *)
+HasKey(line) == \E i \in DOMAIN line : line[i].k = "akey"
+FilterDrops(line, sp, bud) == sp.allow > 0 /\ line # <<>> /\ ~(HasKey(line) /\ bud > 0)
 
 (* Originals the mapping of C09 talks about.  The system's short and fully  *)
 (* qualified name are one original (id 0 of group "host").                  *)
@@ -167,7 +172,7 @@ OccIn(line) == {OrigOf(line[i]) : i \in {j \in DOMAIN line : Group(line[j].k) # 
 -----------------------------------------------------------------------------
 Init ==
     /\ phase = "new" /\ cf = [obf |-> FALSE] /\ ord = <<>> /\ run = 1 /\ content = <<>> /\ si = 0
-    /\ cur = [i |-> 0, acc |-> <<>>] /\ db = <<>> /\ seen = {} /\ cnt = 0 /\ outs = <<>>
+    /\ cur = [i |-> 0, acc |-> <<>>, bud |-> 0] /\ db = <<>> /\ seen = {} /\ cnt = 0 /\ outs = <<>>
     /\ report = {} /\ runs = <<>>
 
 FreshDb(c) == IF c.obf /\ c.host THEN (Sys :> 1) ELSE <<>>       \* hostname.py:28-48
@@ -194,7 +199,7 @@ BeginSpec ==
                     content' = Append(content, [sp |-> sp, lines |-> ls])
          ELSE si < Len(content) /\ content' = content
     /\ si' = si + 1
-    /\ cur' = [i |-> Len(content'[si + 1].lines), acc |-> <<>>]
+    /\ cur' = [i |-> Len(content'[si + 1].lines), acc |-> <<>>, bud |-> content'[si + 1].sp.allow]
     /\ phase' = "spec"
     /\ UNCHANGED <<cf, ord, run, db, seen, cnt, outs, report, runs>>
 
@@ -202,18 +207,21 @@ CleanLine ==                                    \* one iteration of the loop at 
     /\ phase = "spec" /\ cur.i > 0
     /\ LET sp   == content[si].sp
            line == content[si].lines[cur.i]
-       IN IF MustDrop(line, cf, sp)
-            THEN /\ cur' = [i |-> cur.i - 1,
+           by   == IF MustDrop(line, cf, sp) THEN "pattern"
+                   ELSE IF FilterDrops(line, sp, cur.bud) THEN "filter" ELSE "none"
+       IN IF by # "none"
+            THEN /\ cur' = [i |-> cur.i - 1, bud |-> cur.bud,
                             acc |-> Append(cur.acc, [src |-> cur.i, toks |-> line, dropped |-> TRUE,
-                                                     sts |-> [j \in DOMAIN line |-> [st |-> "dropped", by |-> "pattern", v |-> 0]]])]
+                                                     sts |-> [j \in DOMAIN line |-> [st |-> "dropped", by |-> by, v |-> 0]]])]
                  /\ UNCHANGED <<db, cnt>>
             ELSE LET ndb == Extend(line, cf, sp) IN
                  /\ db' = ndb
                  /\ cnt' = cnt + Cardinality(DOMAIN ndb \ DOMAIN db)
                  /\ cur' = [i |-> cur.i - 1,
+                            bud |-> IF sp.allow > 0 /\ line # <<>> THEN cur.bud - 1 ELSE cur.bud,
                             acc |-> Append(cur.acc, [src |-> cur.i, toks |-> line, dropped |-> FALSE,
                                                      sts |-> [j \in DOMAIN line |-> Status(line[j], cf, sp, ord, ndb)]])]
-    /\ seen' = seen \cup OccIn(content[si].lines[cur.i])
+    /\ seen' = seen \cup OccIn(content[si].lines[cur.i])          \* "occurred in the content", kept or not
     /\ UNCHANGED <<phase, cf, ord, run, content, si, outs, report, runs>>
 
 RECURSIVE Rev(_)
@@ -242,7 +250,7 @@ Rerun ==                                        \* a fresh cleaner, same configu
     /\ run' = run + 1
     /\ IF FreeOrder THEN ord' \in Orders ELSE ord' = ord
     /\ db' = FreshDb(cf) /\ cnt' = FreshCnt(cf) /\ seen' = {} /\ outs' = <<>> /\ report' = {}
-    /\ si' = 0 /\ cur' = [i |-> 0, acc |-> <<>>]
+    /\ si' = 0 /\ cur' = [i |-> 0, acc |-> <<>>, bud |-> 0]
     /\ phase' = "idle"
     /\ UNCHANGED <<cf, content, runs>>
 
@@ -285,7 +293,8 @@ Prov(out) == [j \in DOMAIN out |-> IF Blank(out[j]) THEN 0 ELSE out[j].src]
 InProv(lines) == [j \in DOMAIN lines |-> IF lines[j] = <<>> THEN 0 ELSE j]
 ProvenanceMonotone ==
     Live => \A s \in DOMAIN outs : IsSubSeq(Prov(outs[s].out), InProv(content[s].lines))
-AllBlankAfter(lines, c, sp) == \A j \in DOMAIN lines : lines[j] = <<>> \/ MustDrop(lines[j], c, sp)
+AllBlankAfter(lines, c, sp) == \A j \in DOMAIN lines : \/ lines[j] = <<>> \/ MustDrop(lines[j], c, sp)
+                                                       \/ (sp.allow > 0 /\ ~HasKey(lines[j]))
 BlankCollapses ==
     Live => \A s \in DOMAIN outs :
                 AllBlankAfter(content[s].lines, cf, content[s].sp) => (outs[s].out = <<>> /\ ~outs[s].stored)
